@@ -47,6 +47,7 @@ PROPS = {
             dict(run=B + "VerifInductiveStep", name="C01_inductive", quick=dict(val9=0, maxversions=2, stepkind=1), thorough=dict(val9=0, maxversions=3, stepkind=1),
                  covers=["create-ok", "create-refused", "update-ok", "update-refused", "delete-ok", "delete-refused", "index-absent-over-deletion-mark", "done"]),
             dict(run=B + "VerifC01Seq", quick=dict(ops=3, keys=1, val9=0), thorough=dict(ops=3, keys=2, val9=0), covers=["create-ok", "create-refused", "update-ok", "update-refused", "delete-ok", "delete-refused", "delete-absent", "done"]),
+            dict(run=B + "VerifC01Seq", name="C01_seq4", thorough=dict(ops=4, keys=1, val9=0), tiers=["thorough"], covers=["done"]),
         ],
         bounds=dict(quick="2 concurrent clients on 1 key after a 1-write history (initial states: never existed, live, deleted), every interleaving of their store operations and revision dealing with at most 1 preemption; sequential histories of 3 writes; expected revisions unconstrained 64-bit; both conflict-reporting styles of the engine contract; the same two clients after fixed key histories (deleted with the mark present, two versions, deleted and re-created); one write from an arbitrary store state of one key satisfying the representation invariant (0..2 versions with symbolic revisions, deletion marks, every allowed form of the index record, any compaction record), invariant re-established (inductive step)",
                     thorough="2 clients after 2-write histories with at most 2 preemptions; sequential histories of 3 writes over 2 keys"),
@@ -55,7 +56,7 @@ PROPS = {
     ),
     "C05": dict(
         harnesses=[
-            dict(run=B + "VerifC05Watch", quick=dict(ops=2, keys=1, val9=0, cache=2, later=1, newleader=1), thorough=dict(ops=2, keys=2, val9=0, cache=2, later=2, newleader=1),
+            dict(run=B + "VerifC05Watch", quick=dict(ops=2, keys=1, val9=0, cache=2, later=1, newleader=1), thorough=dict(ops=2, keys=2, val9=0, cache=2, later=1, newleader=1),
                  covers=["events-delivered", "several-events", "refused", "catch-up-from-cache", "new-leader", "done"]),
             dict(run=B + "VerifC05Ring", quick=dict(maxsize=3), thorough=dict(maxsize=5), covers=["wrapped", "found", "low", "high", "empty"]),
             dict(run=B + "VerifC05Handover", quick=dict(before=1, during=1, preempt=1), thorough=dict(before=1, during=2, preempt=2), covers=["events-delivered", "done"], stress=60),
@@ -124,7 +125,7 @@ PROPS = {
     ),
     "C06": dict(
         harnesses=[
-            dict(run=B + "VerifC06ListWatch", quick=dict(ops=1, keys=1, val9=0, later=2, newleader=1), thorough=dict(ops=1, keys=2, val9=0, later=3, newleader=1), covers=["put-applied", "delete-applied", "compaction-between", "new-leader-refuses-watch", "done"]),
+            dict(run=B + "VerifC06ListWatch", quick=dict(ops=1, keys=1, val9=0, later=2, newleader=1), thorough=dict(ops=1, keys=2, val9=0, later=2, newleader=1), covers=["put-applied", "delete-applied", "compaction-between", "new-leader-refuses-watch", "done"]),
             dict(run=B + "VerifC06Race", quick=dict(preempt=2), thorough=dict(preempt=3), covers=["read-saw-racing-write", "read-missed-racing-write", "done"], stress=10),
         ],
         bounds=dict(quick="1-write history, list at latest (R), watch from R+1, 2 further symbolic writes (successful and failed) with an optional compaction at any revision in between, reconstruction compared with the list at the latest revision R' and with the reference model; alternatively one more write and then the watch goes to a node that has just taken over (empty event cache): refused or complete; the range read racing a concurrent create and the sequencer (interleaved at store operations, revision dealing and committing, <= 2 scheduling delays), then watch + 1 further write",
@@ -133,7 +134,7 @@ PROPS = {
     ),
     "C09": dict(
         harnesses=[
-            dict(run=B + "VerifC09Uncertain", name="C09_foreign", quick=dict(ops=1, keys=1, val9=0, foreign=1, repairfaults=0, native_tick_ms=1300), thorough=dict(ops=1, keys=2, val9=0, foreign=2, repairfaults=0, native_tick_ms=1300),
+            dict(run=B + "VerifC09Uncertain", name="C09_foreign", quick=dict(ops=1, keys=1, val9=0, foreign=1, repairfaults=0, native_tick_ms=1300), thorough=dict(ops=1, keys=1, val9=0, foreign=2, repairfaults=0, native_tick_ms=1300),
                  covers=["unknown-applied", "unknown-lost", "repair-rewrites", "compaction-capped", "done"]),
             dict(run=B + "VerifC09Uncertain", name="C09_repairfault", quick=dict(ops=1, keys=1, val9=0, foreign=0, repairfaults=1, native_tick_ms=1300), thorough=dict(ops=1, keys=1, val9=0, foreign=1, repairfaults=1, native_tick_ms=1300),
                  covers=["unknown-applied", "repair-rewrites", "done"]),
@@ -191,7 +192,7 @@ PROPS = {
     ),
     "C15": dict(
         harnesses=[
-            dict(run="pkg/zzc15.VerifC15Restart", quick=dict(attempts=3, oraclefaults=0), thorough=dict(attempts=4, oraclefaults=0), covers=["failed-writes-consumed-revisions", "follower-sync", "done"], no_native=True),
+            dict(run="pkg/zzc15.VerifC15Restart", quick=dict(attempts=3, oraclefaults=0), thorough=dict(attempts=3, oraclefaults=0), covers=["failed-writes-consumed-revisions", "follower-sync", "done"], no_native=True),
             dict(run="pkg/zzc15.VerifC15Restart", name="C15_oraclefault", quick=dict(attempts=1, oraclefaults=3), thorough=dict(attempts=2, oraclefaults=4), covers=["oracle-fault-during-takeover", "follower-sync", "done"], no_native=True),
         ],
         bounds=dict(quick="old leader elected through the real election path, 3 write attempts with symbolic expected revisions (any mix of successes, failed conditions and future-revision rejections) each optionally followed by a lock renewal; new node with 0..2 follower revision syncs in any order, elected over the same store; engine clock contract: wall clock/PD timestamp (>= 1 unit per attempt) or count of committed transactions; separately (1 write attempt): the engine's timestamp oracle fails once at any of its first 3 calls during the take-over and the elector runs one more round",
@@ -210,7 +211,8 @@ PROPS = {
     ),
     "C11": dict(
         harnesses=[
-            dict(run="pkg/zzc11.VerifC11Memkv", quick=dict(entries=2, ops=2), thorough=dict(entries=3, ops=2), covers=["batch-applied", "batch-refused", "get-hit", "iter-several", "iter-descending", "changed-under-iterator", "done"]),
+            dict(run="pkg/zzc11.VerifC11Memkv", quick=dict(entries=2, ops=2), thorough=dict(entries=2, ops=2), covers=["batch-applied", "batch-refused", "get-hit", "iter-several", "iter-descending", "changed-under-iterator", "done"]),
+            dict(run="pkg/zzc11.VerifC11Memkv", name="C11_Memkv3", thorough=dict(entries=3, ops=1), tiers=["thorough"], covers=["done"]),
             dict(run="pkg/zzc11.VerifC11MemkvMetrics", quick=dict(entries=1, ops=1), thorough=dict(entries=2, ops=1), covers=["batch-applied", "batch-refused", "done"]),
             dict(run="pkg/zzc11.VerifC11Badger", quick=dict(entries=2, ops=1), thorough=dict(entries=2, ops=2), covers=["batch-applied", "batch-refused", "get-hit", "iter-several", "iter-descending", "changed-under-iterator", "done"]),
             dict(run="pkg/zzc11.VerifC11BadgerMetrics", quick=dict(entries=1, ops=1), thorough=dict(entries=2, ops=1), covers=["batch-applied", "batch-refused", "done"]),
@@ -236,7 +238,7 @@ PROPS = {
     ),
     "C12": dict(
         harnesses=[
-            dict(run="pkg/zzc12.VerifC12Engines", quick=dict(requests=2), thorough=dict(requests=3), covers=["write-ok", "compaction", "done"]),
+            dict(run="pkg/zzc12.VerifC12Engines", quick=dict(requests=2), thorough=dict(requests=2), covers=["write-ok", "compaction", "done"]),
         ],
         bounds=dict(quick="the same sequence of 2 symbolic requests (create / update / delete / get / list with limit / compact+count; 2 prefix-related keys, symbolic values, expected and read revisions) on five nodes: contract store, in-memory adapter, Badger adapter, TiKV adapter (mock cluster natively), metrics wrapper over Badger; pairwise identical answers",
                     thorough="sequences of 3 requests"),
